@@ -52,7 +52,11 @@ def check(ctx, case):
 		if case.get('prev') is not None and len(case['prev']) == len(a) and case.get('fa') in (None, 'window'):
 			# the same array object held other contents during an earlier call and was then overwritten in place
 			A[...] = np.array(case['prev'], dtype=A.dtype)
-			metric.jaccarddist(A, B); metric.jaccard(A, B)
+			try:
+				metric.jaccarddist(A, B); metric.jaccard(A, B)
+			except ValueError as e:
+				if 'read-only' not in str(e):     # (a read-only B is refused loudly: observation, DESIGN 4.6)
+					raise
 			A[...] = np.array(a, dtype=A.dtype)
 		for (x, y, X, Y) in ((a, b, A, B), (b, a, B, A)):
 			try:
